@@ -3,7 +3,6 @@ package main
 // C11 (renderings), C16 (streams), C15 (locks and races).
 
 import (
-	"unicode/utf8"
 	"bytes"
 	"encoding/hex"
 	"errors"
@@ -16,6 +15,7 @@ import (
 	"sync"
 	"sync/atomic"
 	"time"
+	"unicode/utf8"
 
 	"github.com/creack/pty"
 	te "github.com/ricochet1k/termemu"
